@@ -321,6 +321,12 @@ class Interp:
         return self.native(fn, args, kwargs)
 
     def native(self, fn, args, kwargs):
+        if getattr(getattr(fn, "__self__", None), "_pyvc_ok", False) or getattr(fn, "_pyvc_ok", False):
+            # ghost objects of the engine (files, paths, stubs) take symbolic arguments
+            try:
+                return fn(*args, **kwargs)
+            except (ValueError, IndexError, TypeError) as e:
+                raise PyRaise(e)
         if has_symbolic(args) or has_symbolic(kwargs):
             recv = getattr(fn, "__self__", None)
             if not (recv is not None and isinstance(recv, (dict, list)) and fn.__name__ in _CONTAINER_METHODS and not has_symbolic_shallow(args)):
